@@ -123,6 +123,9 @@ class SourceAD(MVPN):
                 f'Unsupported Source Active A-D Route Multicast Source IP length ({sourceiplen * 8} bits). Expected 32 bits (IPv4) or 128 bits (IPv6).',
             )
         cursor += sourceiplen
+        if cursor >= len(packed):
+            # the source length (taken from the wire) does not fit the route: packed[cursor] raised IndexError
+            raise Notify(3, 5, 'Source Active A-D Route too short for its Multicast Source IP length.')
 
         # Validate group IP length
         groupiplen = int(packed[cursor] / 8)
